@@ -216,9 +216,10 @@ def gen_nasa9(rng, name='sp', phase=None, elements=None, n_seg=None, lo=50.0, hi
                       for i in range(n_seg)]}
 
 
+# every key pmutt.constants.R documents
 SHOMATE_UNITS = ['J/mol/K', 'kJ/mol/K', 'cal/mol/K', 'kcal/mol/K', 'eV/K', 'Eh/K', 'Ha/K',
                  'L atm/mol/K', 'cm3 atm/mol/K', 'm3 Pa/mol/K', 'L kPa/mol/K', 'L bar/mol/K',
-                 'L mbar/mol/K', 'cm3 kPa/mol/K', 'm3 bar/mol/K', 'inch3 psi/mol/K']
+                 'cm3 MPa/mol/K', 'cm3 kPa/mol/K', 'm3 bar/mol/K', 'L torr/mol/K']
 
 
 def gen_shomate(rng, name='sp', phase=None, elements=None, lo=50.0, hi=6000.0, units=None, style=None):
